@@ -174,6 +174,28 @@ Proof.
   intros ov sigs a b H Ha Hb. unfold sigs_pairwise_ok in H. rewrite forallb_forall in H. specialize (H a Ha).
   rewrite forallb_forall in H. exact (H b Hb).
 Qed.
+Lemma sig_ok_sym : forall ov a b, sig_ok ov a b = sig_ok ov b a.
+Proof.
+  intros ov [[i1 f1] m1] [[i2 f2] m2]. unfold sig_ok, sig_conflict, in_overlap.
+  rewrite (Z.eqb_sym i2 i1), (Z.lxor_comm f2 f1), (Z.land_comm m2 m1).
+  destruct (i1 =? i2); [reflexivity|]. destruct (negb _); [reflexivity|].
+  assert (E : forall l, existsb (fun p : Z * Z * Z => let '(a, b, _) := p in (a =? i1) && (b =? i2) || (a =? i2) && (b =? i1)) l =
+                        existsb (fun p : Z * Z * Z => let '(a, b, _) := p in (a =? i2) && (b =? i1) || (a =? i1) && (b =? i2)) l).
+  { induction l as [|[[a b] c] l IH]; cbn [existsb]; [reflexivity|]. rewrite IH. f_equal. apply orb_comm. }
+  apply E.
+Qed.
+
+Lemma sigs_tails_sound : forall ov sigs a b, sigs_tails_ok ov sigs = true -> In a sigs -> In b sigs -> a = b \/ sig_ok ov a b = true.
+Proof.
+  induction sigs as [|x r IH]; intros a b H Ha Hb; [destruct Ha|].
+  cbn [sigs_tails_ok] in H. apply andb_prop in H. destruct H as [Hx Hr]. rewrite forallb_forall in Hx.
+  destruct Ha as [<-|Ha]; destruct Hb as [<-|Hb].
+  - left. reflexivity.
+  - right. apply Hx. exact Hb.
+  - right. rewrite sig_ok_sym. apply Hx. exact Ha.
+  - apply IH; assumption.
+Qed.
+
 Lemma sig_ok_cases : forall ov r1 r2, sig_ok ov (row_sig r1) (row_sig r2) = true ->
   r_id r1 = r_id r2 \/ sig_conflict (tfixed (r_tmpl r1)) (tmask (r_tmpl r1)) (tfixed (r_tmpl r2)) (tmask (r_tmpl r2)) = true \/
   in_overlap ov (r_id r1) (r_id r2) = true.
